@@ -247,6 +247,9 @@ func (vc *VC) addObl(o *Obl) {
 
 func (vc *VC) oblName(kind, detail string) string {
 	base := funcRelName(vc.fn)
+	if vc.con != nil && vc.con.CaseTag != "" {
+		detail += vc.con.CaseTag
+	}
 	pkg := ""
 	if vc.fn.Pkg != nil {
 		pkg = vc.fn.Pkg.Pkg.Name() + "."
